@@ -1,6 +1,6 @@
 From Coq Require Import ZArith List Bool Reals Lra.
 From Flocq Require Import Core BinarySingleNaN.
-Require Import GV.FloatBase GV.FloatLemmas GV.AngleM GV.AngleProofs GV.GeonumM GV.GeonumProofs GV.TraitsM.
+Require Import GV.FloatBase GV.FloatLemmas GV.AngleM GV.AngleProofs GV.GeonumM GV.GeonumProofs GV.TraitsM GV.NewProofs GV.CtorProofs.
 Open Scope R_scope.
 Require Import GV.Properties.C14.
 Check C14_same : forall (L : libm) a b, aeqb (ang a) (ang b) = true ->
@@ -17,3 +17,9 @@ Check C14_path_symmetric : forall a b,
   aeqb (add_vv (ang a) (new one one)) (ang b) || aeqb (add_vv (ang b) (new one one)) (ang a) =
   aeqb (add_vv (ang b) (new one one)) (ang a) || aeqb (add_vv (ang a) (new one one)) (ang b).
 Print Assumptions C14_path_symmetric.
+Check C14_general_history : forall (L : libm) a b, aeqb (ang a) (ang b) = false ->
+  aeqb (add_vv (ang a) (new one one)) (ang b) || aeqb (add_vv (ang b) (new one one)) (ang a) = false ->
+  (0 <= blade (ang a) + blade (ang b) < 2 ^ 53)%Z ->
+  fin (total_angle (sum_adjusted L a b) PI) -> Rabs (R_ (total_angle (sum_adjusted L a b) PI)) <= bpow radix2 42 ->
+  canonp (rem (ang (gadd_vv L a b))) /\ (blade (ang a) + blade (ang b) <= blade (ang (gadd_vv L a b)))%Z.
+Print Assumptions C14_general_history.
